@@ -35,9 +35,11 @@ def _install():
         with NoTracing():
             if len(a) == 1 and not k and isinstance(a[0], B.SymbolicFloat):
                 mode = 1
-            elif not any(isinstance(v, CrossHairValue) for v in a) and not any(
-                isinstance(v, CrossHairValue) for v in k.values()
+            elif all(type(v) in (int, float, str, bytes, bool) for v in a) and all(
+                type(v) in (int, float, str, bytes, bool) for v in k.values()
             ):
+                # plain builtins only: an object with a user-defined __int__ (jaqalpaq's Constant) may
+                # hold symbolic state and must be converted under tracing
                 return int(*a, **k)
             else:
                 mode = 0
